@@ -141,7 +141,13 @@ theorem acc_core (w w' : World) (sid : Nat) (es : List SEv) (i : Inv w)
         exact hsz
     · rw [hlog]; exact logHist_append_ses sid es _ i.acc.hist hhist
     · rw [hlog]; exact flushTight_append_ses sid es _ i.acc.tight htight
-  refine ⟨⟨?_, ?_, ?_, ?_, ?_, ?_, ?_, hacc'⟩, ⟨?_, ⟨_, hlog⟩, hreqs, Nat.le_of_eq size.symm, ?_, ?_, ?_⟩⟩
+  have hro : ∀ j ∈ w'.registry, (w'.sock j).rs ≠ .opening := by
+    intro j hm
+    rw [hreg] at hm
+    by_cases hj : j = sid
+    · subst hj; rw [hrs]; exact i.regOpen j hm
+    · rw [other j hj]; exact i.regOpen j hm
+  refine ⟨⟨?_, ?_, ?_, ?_, ?_, ?_, ?_, hacc', hro⟩, ⟨?_, ⟨_, hlog⟩, hreqs, Nat.le_of_eq size.symm, ?_, ?_, ?_⟩⟩
   · rw [hlog]
     exact logOK_append_ses sid es hes _ i.logOK (fun hc => hnc (i.logClosed sid hc))
   · intro j hc; exact (hcw j).mpr (i.logClosed j ((hci j).mp hc))
